@@ -1747,6 +1747,9 @@ def GET_EYE(
         left = np.argmin(ty_c[:,0])
         right = np.argmax(ty_c[:,0])
 
+        if find_nearest(t_set, ty_c[left,0]) == find_nearest(t_set, ty_c[right,0]):
+            raise ValueError("crossing points not resolved (all of them at the same instant); nominal crossing times are used")
+
         eye_dict["t_left"] = t_left = find_nearest(t_set, ty_c[left,0])
         eye_dict["t_right"] = t_right = find_nearest(t_set, ty_c[right,0])
         eye_dict["t_opt"] = t_center = find_nearest(t_set, ty_c[:,0].mean())
